@@ -105,6 +105,65 @@ def make_check(kind):
     return check
 
 
+@st.composite
+def tie_cases(draw, tier):
+    """epsilon exactly equal to a normalised entry: integer counts (flat kernel, mix 1, no normalisation) make the column
+    normalisation exact in float32, so 'entries below epsilon' is decidable: an entry equal to epsilon must be kept."""
+    from vv.gen import corpora
+    c = draw(corpora.corpus(max_docs=4, max_len=8, max_alpha=4))
+    c["specs"] = [{"kernel": "flat", "radius": draw(st.integers(1, 2)), "orientation": draw(st.sampled_from(["before", "after", "directional"])),
+                   "mix": 1.0, "window": "fixed", "offset": 0, "normalize": False}]
+    c["normalize_windows"] = False
+    c["prune"] = {}
+    c["n_iter"] = 0
+    c["epsilon"] = draw(st.sampled_from([1.0, 0.5, 0.25, 0.125]))
+    c["n_threads"] = 1
+    return c
+
+
+def check_tie(case):
+    L = cc.lib()
+    np = L["np"]
+    r = Result()
+    kind, site = "token", "TokenCooccurrenceVectorizer"
+    r.label("epsilon:%g" % case["epsilon"])
+    e = cc.expectation(kind, case)
+    if e.ambiguous or not e.index:
+        return r
+    s, est = call(cc.build, kind, case, {"n_iter": 0, "epsilon": case["epsilon"], "n_threads": 1})
+    s, M = call(est.fit_transform, cc.lib_input(kind, case))
+    if s == "exc":
+        r.fail(exc_kind(M), site + ".fit_transform", exc_detail(M))
+        return r
+    shape = (e.n_rows, e.n_cols * len(e.blocks))
+    C, _ = cc.cell_matrix(np, e.cells, shape)
+    colsum = C.sum(axis=0)
+    want = np.zeros(shape)
+    nz = colsum > 0
+    want[:, nz] = C[:, nz] / colsum[nz]           # integer counts: exact whenever the quotient is dyadic
+    ties = (want == case["epsilon"])
+    want[want < case["epsilon"]] = 0.0
+    A = np.asarray(M.todense(), dtype=np.float64)
+    if A.shape != shape:
+        r.fail("shape", site + ".fit_transform", "shape %s, expected %s" % (A.shape, shape))
+        return r
+    if ties.any():
+        r.label("exact-tie")
+        r.nontrivial = True
+        if (A[ties] == 0).any():
+            i, j = np.argwhere(ties & (A == 0))[0]
+            r.fail("tie-dropped", site + ".fit_transform", "cell (%d, %d) equals epsilon = %g exactly (count %g of %g) but was zeroed: only entries below epsilon may be removed"
+                   % (i, j, case["epsilon"], C[i, j], colsum[j]))
+    if not np.allclose(A, want, rtol=1e-6, atol=1e-7) and not r.failures:
+        # entries within float32 rounding of epsilon (non-dyadic quotients) are not decidable
+        close = np.abs(want - case["epsilon"]) <= 1e-6
+        near = (np.abs(C / np.where(colsum > 0, colsum, 1)[None, :] - case["epsilon"]) <= 1e-6) & ~ties
+        if not near.any():
+            i, j = np.argwhere(~np.isclose(A, want, rtol=1e-6, atol=1e-7))[0]
+            r.fail("threshold-value", site + ".fit_transform", "cell (%d, %d): got %r, normalise-and-threshold gives %r" % (i, j, A[i, j], want[i, j]))
+    return r
+
+
 def fam(kind, quick, thorough):
     return Family(lambda tier, kind=kind: cases(kind, tier), make_check(kind), {"quick": quick, "thorough": thorough},
                   {"quick": 4, "thorough": 16})
@@ -115,4 +174,5 @@ FAMILIES = {
     "timed": fam("timed", 200, 3000),
     "multi": fam("multi", 200, 3000),
     "ngram": fam("ngram", 200, 3000),
+    "epsilon_ties": Family(tie_cases, check_tie, {"quick": 300, "thorough": 4000}, {"quick": 1, "thorough": 4}),
 }
